@@ -1,1 +1,30 @@
-From Morph Require Import Base.UStr.
+(* C11 — each statement depends only on the row that produced it.  Statements only. *)
+From Morph Require Import Base.UStr Model.Terms Model.Data Model.Engine Proofs.DataP Proofs.RowwiseP.
+
+(* the engine, on a plain rule (no join, no quoted map, not all-constant), is a function of each row alone: its result
+   is the concatenation over the rows of the frame it reads -- for every rule table, configuration and data access *)
+Theorem engine_is_rowwise : forall cfg fe rules get_data rl d,
+  plain_rule rl = true -> get_data (r_src rl) (rule_ref_set fe rules rl) = Ok d ->
+  okeq (rule_triples cfg fe rules get_data rl) (frame_lines cfg fe rl d).
+Proof. exact plain_rule_triples. Qed.
+Print Assumptions engine_is_rowwise.
+
+(* the result over the union of two row sets is the union of the two results *)
+Theorem rows_additive : forall cfg fe rl d1 d2 l, frame_lines cfg fe rl (d1 ++ d2) = Ok l ->
+  exists l1 l2, frame_lines cfg fe rl d1 = Ok l1 /\ frame_lines cfg fe rl d2 = Ok l2 /\ l = l1 ++ l2.
+Proof. exact frame_lines_app. Qed.
+Print Assumptions rows_additive.
+(* duplicate rows add nothing and row order is irrelevant: frames with the same set of rows give the same statements *)
+Theorem duplicates_and_order_irrelevant : forall cfg fe rl d d' l l', (forall r, In r d <-> In r d') ->
+  frame_lines cfg fe rl d = Ok l -> frame_lines cfg fe rl d' = Ok l' -> forall x, In x l <-> In x l'.
+Proof. exact frame_lines_same_rows. Qed.
+Print Assumptions duplicates_and_order_irrelevant.
+(* and the frame itself: null filtering, casting and de-duplication act row by row *)
+Theorem preprocess_additive : forall na refs f1 f2 r,
+  In r (preprocess na refs (f1 ++ f2)) <-> In r (preprocess na refs f1) \/ In r (preprocess na refs f2).
+Proof. exact preprocess_app. Qed.
+Print Assumptions preprocess_additive.
+Theorem preprocess_set_semantics : forall na refs f f', (forall r, In r f <-> In r f') ->
+  forall r, In r (preprocess na refs f) <-> In r (preprocess na refs f').
+Proof. exact preprocess_same_rows. Qed.
+Print Assumptions preprocess_set_semantics.
